@@ -17,7 +17,9 @@ CHECKS = {
                   "preprocessor #define census (-E -dD) for macro hygiene",
         text="Every documented misuse in an enumerated matrix (shipped negative programs + each illegal "
              "ingredient at every position of every legal clause chain) is rejected by the compiler with "
-             "the documented diagnostic, every permutation of every legal clause subset compiles, and no "
+             "the documented diagnostic (including, at C++20, the coroutine clause matrix: misuse on coroutine "
+             "functions and every coroutine clause on an ordinary function at every position), every "
+             "permutation of every legal clause subset compiles, and no "
              "#define directive in the headers escapes the TROMPELOEIL_ prefix under TROMPELOEIL_LONG_MACROS. "
              "The verdict is the compiler's own, so it holds for every program built from these clause "
              "chains, not for sampled runs.",
@@ -91,7 +93,8 @@ CHECKS["C08"] = dict(
     text="On every accepted path of every dispatch instantiation the selected candidate's actions run exactly once and "
          "then its return expression exactly once, whose result is what the mock function returns; the call is counted "
          "before the first side effect; side effects and conditions are appended in declaration order and iterated "
-         "over the whole list; in every function that evaluates WITH clauses no clause is evaluated after one has "
+         "over the whole list, and once the call has been counted no path leaves run_actions without passing the "
+         "side-effect loop; in every function that evaluates WITH clauses no clause is evaluated after one has "
          "failed; reference returns keep object identity by type.",
     design_ref="DESIGN.md section 4, C08", note="Not decided: what the user's expressions compute.")
 
@@ -103,7 +106,9 @@ CHECKS["C01"] = dict(
          "only the no-match reporter runs, and every path of it is exactly one fatal report then abort, reaching no "
          "count, list, sequence, action or OK event; a run_actions path that ends in a fatal report has changed "
          "nothing; saturated expectations are never candidates; matching is the conjunction over all parameters and "
-         "all WITH conditions; expired expectations are unlinked on every path.",
+         "all WITH conditions (decided on matches() whether the WITH loop lives in a helper or in matches() itself); "
+         "expired expectations are unlinked on every path; every TIMES / RT_TIMES form sets the limits it says "
+         "(every arity of the multiplicity constructors, default arguments included).",
     design_ref="DESIGN.md section 4, C01",
     note="The 'iff' composes C02 (which candidate), C05 (sequence permission), C07 (forbidden); the lifting from "
          "'per call' to 'every history' is the list invariant written in DESIGN.md.")
@@ -114,7 +119,8 @@ CHECKS["C02"] = dict(
          "(matches, cost, candidate present, lowest cost); new expectations go to the front of exactly the list "
          "their tag selects; each generated mock function dispatches on the member whose active list its tag "
          "returns and forwards its parameters in order (every MAKE_MOCK in the analysed units); signatures are "
-         "isolated by type; cost/order tables are those of C05.",
+         "isolated by type; cost/order tables are those of C05; the list primitives and the move of a whole list keep "
+         "the element order (SHAPE).",
     design_ref="DESIGN.md section 4, C02",
     note="Global optimality of the selection is the loop invariant written in DESIGN.md over the checked step.")
 CHECKS["C03"] = dict(
@@ -127,12 +133,14 @@ CHECKS["C03"] = dict(
          "saturated list; RT_TIMES throws std::logic_error exactly when high<low, before any effect.",
     design_ref="DESIGN.md section 4, C03", note="count<=max is an invariant from C03.d, used as don't-care rows.")
 CHECKS["C06"] = dict(
-    technique="decision table of the is_completed step (TABLE), teardown automaton with tracked boolean locals, "
-              "protocol automaton for leave-on-saturation, dominance for leave-on-release",
+    technique="decision table of the is_completed step (TABLE, loop-idiom independent), interpretation of the sequence "
+              "teardown over abstract pending lists of 0..3 elements with per-element atoms, protocol automaton for "
+              "leave-on-saturation, dominance for leave-on-release",
     text="is_completed returns false exactly at the first unsatisfied pending expectation and true otherwise; "
-         "~sequence_type takes the current front, lists it and unlinks it until the list is empty and sends exactly "
-         "one non-fatal report iff something was listed; both step consumers leave their sequences on saturation and "
-         "a released node unlinks on every path.",
+         "~sequence_type lists every pending expectation once in list order whatever its state, unlinks each, and sends "
+         "exactly one non-fatal report after the last one iff the list was not empty; both step consumers leave their "
+         "sequences on saturation, test saturation only after the call / destruction has been counted, and retire "
+         "predecessors only together with counting; a released node unlinks on every path.",
     design_ref="DESIGN.md section 4, C06", note="The query's lock is C12.")
 CHECKS["C07"] = dict(
     technique="preprocessor token equality of the FORBID macro family, protocol automaton, constant evaluation of "
@@ -145,21 +153,23 @@ CHECKS["C07"] = dict(
 
 CHECKS["C10"] = dict(
     technique="truth tables obtained by interpreting each matcher's extracted return expression / fold over all "
-              "valuations of a finite abstraction (TABLE), factory-predicate-printer agreement, dominance of null guards",
+              "valuations of a finite abstraction (TABLE), factory-predicate-printer agreement, dominance of null guards, "
+              "compile-time type witness for the plain-value comparison",
     text="Each scalar matcher and combinator is a one-expression predicate; its table over ord(x,v) in {<,=,>}, "
          "booleans and null/non-null equals the mathematical predicate for eq/ne/lt/le/gt/ge, _, ANY, !m, *m (no "
          "dereference of null), any_of/all_of/none_of (1..3 operands, uniform pack expansion), MEMBER_IS and re() "
          "(non-null and found over [begin,end) with the stored flags; the empty string is a string); operands reach "
-         "the predicate as (actual, stored...) for typed and duck-typed matchers alike. This is the full predicate-"
-         "level property; the user type's own operators and std::regex_search are opaque.",
+         "the predicate as (actual, stored...) for typed and duck-typed matchers alike; a plain-value operand reaches "
+         "operator== unconverted whenever it is comparable as it is (type witness over integral / floating / "
+         "string / pointer pairs). This is the full predicate-level property; the user type's own operators and std::regex_search are opaque.",
     design_ref="DESIGN.md section 4, C10", note="Nesting follows from compositionality: every combinator's table is "
     "over the results of its operands' matches().")
 CHECKS["C13"] = dict(
     technique="who-may-write on the monitor slot, typestate automata over ~deathwatched / ~lifetime_monitor / notify, "
               "return-value data-flow of the queries",
     text="The monitor slot is written only by operator=(T*) (called only from trompeloeil_expect_death) and starts "
-         "null in every constructor; copy/move construction does not read the source and copy/move assignment does "
-         "not write; a dying object notifies a live requirement exactly once and reports nothing itself, or reports "
+         "null in every constructor; copy/move construction does not read the source and copy/move assignment neither "
+         "writes the slot nor hands it to anything (swap, exchange); a dying object notifies a live requirement exactly once and reports nothing itself, or reports "
          "exactly one non-fatal unexpected destruction; a released requirement reports one non-fatal 'still alive' "
          "and detaches iff its object is alive, and never touches the slot of a dead object; notify marks the "
          "requirement died and counts the destruction on every path.",
@@ -207,7 +217,9 @@ CHECKS["C14"] = dict(
          "rule holds: nodes unlink in their destructor on every path, handles are contained in their handler, the "
          "monitor/object borrows are detached and guarded; every new reaches an owning sink first; only the disposer "
          "deletes; destroying loops advance before disposing; unlink, push_front, push_back and node move-assignment "
-         "yield a well-formed ring with the specified order on every canonical ring shape. Three borrows violate "
+         "yield a well-formed ring with the specified order on every canonical ring shape, and so does moving a whole "
+         "list (defaulted or hand-written); the process-wide mutex lives in storage that is never destroyed "
+         "(objects with static storage lock it from their destructors). Three borrows violate "
          "their rule on the pinned tree and are recorded as known findings (sequence handle -> sequence object, tracer "
          "-> previous tracer, handler coroutine's parameter reference).",
     design_ref="DESIGN.md section 4, C14",
@@ -221,7 +233,8 @@ CHECKS["C20"] = dict(
          "coroutine body (the body may be a same-class coroutine the handler plainly forwards to, whose reference "
          "parameters must then not be bound to temporaries or locals of the forwarder); CO_YIELD appends to, and CO_RETURN/CO_THROW share, the expectation's single yield list for "
          "every clause order; detection traits hold for eager/lazy tasks, operator co_await tasks and generators; all "
-         "legal clause permutations compile and misuse is rejected with the documented text.",
+         "legal clause permutations compile and misuse is rejected with the documented text - on coroutine functions, and "
+         "every coroutine clause on an ordinary function in every position relative to the ordinary clauses.",
     design_ref="DESIGN.md section 4, C20",
     note="Suspension/resumption and where exceptions surface are language semantics; parameter lifetime across "
          "suspension is a known finding.")
